@@ -2,19 +2,22 @@
 (* Binding B for Layout.tla: layouts produced outside TLC (random layouts of the example plans, *)
 (* written by the harness with the same layout actions) together with the word lists the real   *)
 (* Builder handed to its dispatcher are judged against the documented reading:                  *)
-(*   Join(case.lines) = case.cmds        the layout is a layout of that script, and             *)
-(*   case.dispatched = Join(case.lines)  the builder read it as documented.                     *)
+(*   Join(case.lines) = case.cmds (and the same for the loaded file)  the layout is a layout of *)
+(*                                       that script, and                                       *)
+(*   case.dispatched = Dispatched        the builder read it as documented.                     *)
 (* The verdicts are printed as <<"CASE", k, layoutOK, dispatchOK>>, one per case.               *)
-(* Input: {"cmds": [...], "cases": [{"lines": [...], "cmds": [...], "dispatched": [...]}, ...]}  *)
+(* Input: {"cmds": [...], "cases": [{"lines": [...], "cmds": [...], "sub": [...], "subcmds":     *)
+(*         [...], "dispatched": [...]}, ...]}   (sub / subcmds: the loaded file, [] if none)      *)
 EXTENDS Layout
 
 VARIABLES k, dispatched
 Cases == Input.cases
 CaseInit == k \in 1..Len(Cases) /\ Cmds = Cases[k].cmds /\ dispatched = Cases[k].dispatched
+            /\ SubCmds = Cases[k].subcmds /\ sub = Cases[k].sub
             /\ lines = Cases[k].lines /\ n = 0 /\ fin = FALSE
 CaseNext == UNCHANGED <<vars, k, dispatched>>
 CaseSpec == CaseInit /\ [][CaseNext]_<<vars, k, dispatched>>
-CaseLayoutOK == Join(lines) = Cmds
-CaseDispatchOK == dispatched = Join(lines)
+CaseLayoutOK == Join(lines) = Cmds /\ Join(sub) = SubCmds
+CaseDispatchOK == dispatched = Dispatched
 Verdict == PrintT(<<"CASE", k, CaseLayoutOK, CaseDispatchOK>>)
 =============================================================================
